@@ -87,6 +87,9 @@ func init() {
 		return runScenario(r, in, true)
 	}
 
+	// alias: C09's merged config already has a workload called `chain` (vrhash)
+	workloads["schedchain"] = workloads["chain"]
+
 	// C16: ids vs. commit order; one or two ledgers in the bucket; rollbacks leave gaps.
 	workloads["ids"] = func(r *run) error {
 		R := r.R()
@@ -133,6 +136,20 @@ func init() {
 		in := In{Workload: "ik", Ledgers: []LedgerSpec{{Name: "l", HashLogs: gen.Pick(R, []string{"SYNC", "ASYNC", "DISABLED"})}}, Setup: []Req{}, Reqs: []Req{}}
 		fund(&in, "", "alice", "USD", gen.Pick(R, []string{"10", "10", "20", "100"}))
 		fund(&in, "", "x", "USD", "1")
+		if R.Intn(5) == 0 {
+			// reverts sharing a key (with and without user metadata), concurrently and replayed afterwards
+			base := Req{Kind: "revert", TxID: 1, IK: "rkey", Force: R.Intn(2) == 0, WithMetadata: R.Intn(3) > 0}
+			for i := 0; i < 2; i++ {
+				q := base
+				q.Task = taskName(i)
+				in.Reqs = append(in.Reqs, q)
+			}
+			p := base
+			p.Task = "p1"
+			in.Post = []Req{p}
+			in.SchedSeed = R.Int63n(1 << 30)
+			return runScenario(r, in, true)
+		}
 		n := 2
 		if R.Intn(4) == 0 {
 			n = 3
